@@ -10,6 +10,7 @@ import BorshModel.IoOps
 import BorshModel.ArrayGuard
 import BorshModel.ValidateSpec
 import BorshModel.SchemaWalk
+import BorshModel.Coherent
 open Borsh Driver
 
 def strict? : Sx → Option Bool
@@ -379,6 +380,15 @@ def runCase (xs : List Sx) : String :=
         | none => "bad-case container-shape"
       | _ => "bad-case container-bytes"
     | _, _ => "bad-case parse"
+  | [.atom "hyp08", t] =>
+    -- the hypotheses of theorem `C08_describes` at this type: name coherence, a shape the schema
+    -- impls exist for, well-formedness
+    match ty? t with
+    | some t =>
+      if coherentB t && shapeOk t && WfTy t then "ok"
+      else "hypothesis-fails coherent=" ++ toString (coherentB t) ++ " shape=" ++ toString (shapeOk t) ++
+        " wf=" ++ toString (WfTy t)
+    | none => "bad-case parse"
   | [.atom "schema", t] =>
     match ty? t with
     | some t =>
